@@ -352,8 +352,11 @@ def run_job(job, repo, outdir, info):
     p = os.path.join(outdir, job["out"])
     old = open(p).read() if os.path.exists(p) else None
     if old != text:
-        with open(p, "w") as f:
+        # atomic: units that share a generated copy may slice concurrently (identical content)
+        tmp = p + f".tmp{os.getpid()}-{id(job)}"
+        with open(tmp, "w") as f:
             f.write(text)
+        os.replace(tmp, p)
 
 
 def run_unit(unit, u, repo, outdir):
